@@ -17,12 +17,16 @@ PROPERTY_RULES = {
     "C12": ["r_c4", "r_e1"],
     "C13": ["r_a6", "r_e1"],
     "C14": ["r_d1"],
+    "C15": ["r_d2", "r_d3"],
     "C16": ["r_e1"],
 }
 
 LEVEL = {"C14": "proof"}
 
 CLAUSES = {
+    "C15": "Debug: the sets of byte values reaching each write partition 0..=255 and every branch's template decodes, by the byte-string-literal grammar, "
+           "to exactly the guarded byte, framed by b\" and \"; hex: one {:02x}/{:02X} per byte; serde: each entry point passes its whole argument through "
+           "content-preserving conversions, visit_seq keeps every element in order",
     "C01": "no API of Bytes can write its bytes; every place where the crate moves bytes or re-bases a view does it in the only correct order and with the "
            "right length/offset (copy-back before shrinking, offset re-applied, bytes before pointer); writes into shared storage are dominated by a "
            "uniqueness test; no handle is disposed early or twice",
@@ -65,6 +69,7 @@ LEVEL_NOTE = {
     "C14": "trusted: rustc type checking/trait resolution, std slice comparison and hash impls, std views (as_bytes, deref, [..]); views show the contents (C01).",
 }
 TECHNIQUE = {
+    "C15": "finite-domain (0..=255) value-set propagation through the byte comparisons in MIR joined with format templates from the expanded AST; provenance flow for serde",
     "C01": "signature/impl-table scan of Bytes (effect property) + dominance rules for byte moves and re-basing over MIR provenance trees + token accounting",
     "C04": "per-write justification rules over MIR provenance trees and dominating guards (A8), path enumeration of the reservation helper, arithmetic taint (E1)",
     "C07": "effect reachability over the crate call graph with vtable slots expanded to all bound functions; exemptions verified by dominating guards",
@@ -81,6 +86,8 @@ TECHNIQUE = {
     "C11": "name-grammar vs encode-signature agreement over MIR callees, taint+guard analysis of overflow asserts",
     "C16": "taint + dominating-guard analysis of every MIR overflow/shift assert (profile-dependent arithmetic)",
 }
+LEVEL_NOTE["C15"] = ("trusted: core::fmt's rendering of {} for char and {:02x}/{:02X} for u8 (modelled, not executed); escapes are self-delimiting per the Rust "
+                      "reference grammar, so per-byte correctness implies whole-string correctness. NOT decided: round trips through arbitrary serde (de)serializers.")
 LEVEL_NOTE["C08"] = ("trusted: rustc, std atomics. NOT decided: 'an empty sole owner can always reclaim / reserve does not allocate' — an arithmetic "
                       "implication over reserve_inner's branch conditions that needs a solver (DESIGN.md §6 C08).")
 NOT_APPLICABLE = {
